@@ -107,6 +107,9 @@ func (r *Recorder) Handle(role int, client, method string, req interface{}) (ocp
 // EnumTags returns the accepted value sets of the registered enum validators.
 func EnumTags() map[string][]string { return enumTags }
 
+// EnumDeclared returns every exported constant value of the enumeration types.
+func EnumDeclared() []string { return enumDeclared }
+
 var dt16 = reflect.TypeOf(types16.DateTime{})
 var dt2 = reflect.TypeOf(types2.DateTime{})
 
